@@ -112,10 +112,12 @@ def run_in_child(world, index, tier, seed, replay=None, want_decoded=False, time
 # lanes
 # ---------------------------------------------------------------------------
 def _lane(world, lane, jobs, indices, tier, seed, deadline, out_fd, per_run_timeout, sample_idx):
+    consecutive_errors = 0
     for i in indices[lane::jobs]:
-        if time.time() > deadline:
+        if time.time() > deadline or consecutive_errors >= 2:
             break
         res = run_in_child(world, i, tier, seed, want_decoded=(i in sample_idx), timeout=per_run_timeout)
+        consecutive_errors = consecutive_errors + 1 if res.get("harness_error") else 0
         data = json.dumps(res, default=str).encode() + b"\n"
         off = 0
         while off < len(data):
